@@ -40,15 +40,18 @@ def det_scenarios(seed, tier):
     clock = [{"seed": seed * 151 + k, "popsize": [24, 40][k % 2], "executor": "seq", "start": ["rich", "xor"][k % 2], "fitness": [6, 7][k % 2],
               "epochs": 5, "preset": [0, 3][k % 2], "loglevel": "debug",
               "override": {"thr": [0.3, 0.2][k % 2], "addnode": 0.3, "addlink": 0.3}} for k in range(1 if tier == "quick" else 3)]
-    modular = modular + ties + reseed + execute + clock
+    # size: populations well beyond any size at which an implementation may switch algorithms (shipped configurations go up to 1000)
+    bigpop = [{"seed": seed * 83 + k, "popsize": [300, 520, 1000][k % 3], "executor": "seq", "start": ["xor", "rich"][k % 2], "fitness": 6,
+               "epochs": 3, "preset": [0, 3][k % 2], "fixed_epochs": True} for k in range(1 if tier == "quick" else 3)]
+    modular = modular + ties + reseed + execute + clock + bigpop
     if tier == "quick":
         picked = scs[::4][:10] + modular
         for s in picked:
-            s["epochs"] = max(8, s["epochs"] if s.get("override") else 0) if not s.get("loglevel") else s["epochs"]
+            s["epochs"] = max(8, s["epochs"] if s.get("override") else 0) if not (s.get("loglevel") or s.get("fixed_epochs")) else s["epochs"]
     else:
         picked = scs + modular + [dict(m, seed=m["seed"] + 10, preset=(m["preset"] + 1) % 6) for m in modular]
         for i, s in enumerate(picked):
-            s["epochs"] = ((40 if s["popsize"] <= 20 else 20) if s.get("via") != "execute" else 10) if not s.get("loglevel") else 5
+            s["epochs"] = ((40 if s["popsize"] <= 20 else 20) if s.get("via") != "execute" else 10) if not (s.get("loglevel") or s.get("fixed_epochs")) else (5 if s.get("loglevel") else 3)
             s["seed"] = seed * 7919 + i
     return picked
 
